@@ -105,8 +105,11 @@ CHECKS = {
             "not lower. Delegation chains to depth 3, inadequate thresholds and key sets, the cross-party flow, odd names, "
             "copy/symlink publication and downloads are covered by the correspondence runs with an independent Python "
             "tracker of what was put in. Known finding: url_encoded_target_name.",
-            NOTE + MODELLED + " The model of the editor is tied to the code only through these runs for programs with "
-            "delegations.", "5/C10"),
+            NOTE + MODELLED + " The Gallina model of sign + write (ed_sign) is executed on every run against the files the "
+            "real editor wrote for the programs without delegated roles (versions, expirations, entries, signers, snapshot "
+            "and timestamp entries with the lengths and digests of the written files, file names; refusal for inadequate "
+            "key sets); for programs with delegations the editor is tied to the property through the end-to-end runs "
+            "and the Python tracker only.", "5/C10"),
     "C11": ("Coq proof that the CanonicalFormatter state machine (driven by serde_json's event sequence) computes the "
             "recursive OLPC specification; order-independence and sortedness theorems; differential correspondence "
             "and independent Python specification oracle",
